@@ -12,6 +12,7 @@ use crate::sources::{Dispatcher, EventSource, Idle, IdleDispatcher, EventDispatc
 use crate::sys::{Notifier, PollEvent};
 use crate::token::TokenInner;
 use crate::{AdditionalLifecycleEventsSet, Poll, PostAction, Readiness, Token, TokenFactory};
+use crate::error::InsertError;
 
 //@ include regtoken_body
 //@ include loop_types_body
